@@ -87,8 +87,10 @@ def emit(p, fname, naming=0):
         s_, i, x, y = N["s"], N["i"], N["x"], N["y"]
         A, B = "%s += len(%s)" % (s_, x), "%s += len(%s) * 2" % (s_, y)
         cmpop, first, second = (NEG[p["cmp"]], B, A) if pres["flip"] else (p["cmp"], A, B)
-        return sig + ("\t%s, %s := pick(%s), pick(%s)\n\t%s := 0\n\tfor %s := 0; %s < clamp(%s); %s++ {\n\t\tif %s %s 1 {\n\t\t\t%s\n\t\t} else {\n\t\t\t%s\n\t\t}\n\t}\n\treturn %s\n}\n"
-                      % (x, y, a, b, s_, i, i, a, i, i, cmpop, first, second, s_))
+        init = {"pick": "\t%s, %s := pick(%s), pick(%s)\n", "split": "\t%s, %s := pick2(%s, %s)\n",
+                "slice": "\t%s, %s := pick(%s)[0:], pick(%s)[:]\n"}[p.get("src", "pick")] % (x, y, a, b)
+        return sig + init + ("\t%s := 0\n\tfor %s := 0; %s < clamp(%s); %s++ {\n\t\tif %s %s 1 {\n\t\t\t%s\n\t\t} else {\n\t\t\t%s\n\t\t}\n\t}\n\treturn %s\n}\n"
+                      % (s_, i, i, a, i, i, cmpop, first, second, s_))
     if t == "bigloop":
         s_, i = N["s"], N["i"]
         return sig + "\t%s := 0\n\tfor %s := %d; %s < %s; %s += %d {\n\t\t%s++\n\t}\n\treturn %s + %s\n}\n" % (
@@ -190,7 +192,7 @@ def emit(p, fname, naming=0):
     raise KeyError(t)
 
 
-HEADER = 'package %s\n\nimport (\n\t"math/bits"\n\t"unicode/utf16"\n\t"unicode/utf8"\n\n\tautil "example.com/minigo/a/util"\n\tbutil "example.com/minigo/b/util"\n)\n\nvar _ = bits.Len8\nvar _ = utf16.RuneLen\nvar _ = utf8.RuneLen\nvar _ = autil.Weight\nvar _ = butil.Weight\n\nvar sink int\n\nfunc clamp(v int) int {\n\tif v < 0 {\n\t\treturn 0\n\t}\n\tif v > 4 {\n\t\treturn 4\n\t}\n\treturn v\n}\n\nvar picks = [5]string{"", "ab", "abc", "abd", "b"}\n\nfunc pick(v int) string { return picks[clamp(v)] }\n\nvar tabs = [5][]int{{}, {1}, {3, -1}, {2, 2, 5}, {0, 4, 1, 7}}\n\nfunc tab(v int) []int { return tabs[clamp(v)] }\n\nfunc b2i(c bool) int {\n\tif c {\n\t\treturn 1\n\t}\n\treturn 0\n}\n\nfunc dm(x, y int) (int, int) { return x + y, x - y }\n\nfunc kind(v any) int {\n\tswitch v.(type) {\n\tcase int32:\n\t\treturn 1\n\tcase int64:\n\t\treturn 2\n\t}\n\treturn 3\n}\n\n'
+HEADER = 'package %s\n\nimport (\n\t"math/bits"\n\t"unicode/utf16"\n\t"unicode/utf8"\n\n\tautil "example.com/minigo/a/util"\n\tbutil "example.com/minigo/b/util"\n)\n\nvar _ = bits.Len8\nvar _ = utf16.RuneLen\nvar _ = utf8.RuneLen\nvar _ = autil.Weight\nvar _ = butil.Weight\n\nvar sink int\n\nfunc clamp(v int) int {\n\tif v < 0 {\n\t\treturn 0\n\t}\n\tif v > 4 {\n\t\treturn 4\n\t}\n\treturn v\n}\n\nvar picks = [5]string{"", "ab", "abc", "abd", "b"}\n\nfunc pick(v int) string { return picks[clamp(v)] }\n\nfunc pick2(v, w int) (string, string) { return pick(v), pick(w) }\n\nvar tabs = [5][]int{{}, {1}, {3, -1}, {2, 2, 5}, {0, 4, 1, 7}}\n\nfunc tab(v int) []int { return tabs[clamp(v)] }\n\nfunc b2i(c bool) int {\n\tif c {\n\t\treturn 1\n\t}\n\treturn 0\n}\n\nfunc dm(x, y int) (int, int) { return x + y, x - y }\n\nfunc kind(v any) int {\n\tswitch v.(type) {\n\tcase int32:\n\t\treturn 1\n\tcase int64:\n\t\treturn 2\n\t}\n\treturn 3\n}\n\n'
 
 
 def write_support(root):
